@@ -212,7 +212,7 @@ class Bench:
             except Exception as e:  # noqa: BLE001
                 flag("retrieve[no-eol]:raises:" + type(e).__name__, str(e)[:160])
             else:
-                if got is None or not A.same(got2, got):
+                if got is None or (got2 != got and not A.same(got2, got)):
                     self.check(got2, expected, "retrieve[no-eol]", flag)
         res = {"clauses": list(clauses.items()), "attempts": attempts,
                "n_got": len(got) if isinstance(got, list) else -1, "digest": hash(data), "n_bytes": len(data)}
